@@ -2,12 +2,13 @@
 C11 - whitespace-only source edits in offset mode keep every node on its text."""
 
 import ast
+import copy
 import io
 import tokenize
 
 from . import ops as O
 from .editsim import Plugin, StopRun, Violation, check_consistent, modifying_registry, plugin
-from .model import fdump, iter_paths, parse_full, path_str, sdump
+from .model import fdump, iter_paths, parse_full, path_str, resolve, sdump
 from . import progen
 from .progen import try_toks
 
@@ -353,6 +354,18 @@ class C10(Plugin):
 # ======================================================================================================================
 # C11
 
+def tdump(tree):
+    """Structure dump for the 'pure trivia' precondition: string Constants that are literal parts of an f-string are
+    masked, because the text of a self-documenting field (f'{a + b=}') legitimately follows the spacing inside it."""
+    t = copy.deepcopy(tree)
+    for n in ast.walk(t):
+        if isinstance(n, ast.JoinedStr):
+            for v in n.values:
+                if isinstance(v, ast.Constant):
+                    v.value = '?'
+    return sdump(t)
+
+
 def gaps(src):
     """Gaps between consecutive significant tokens: [(end_of_prev(line, col), start_of_next, depth, prev_tok, next_tok)]."""
     toks = try_toks(src)
@@ -367,8 +380,11 @@ def gaps(src):
             fdepth += 1
         if t.type in (tokenize.NL, tokenize.COMMENT, tokenize.INDENT, tokenize.DEDENT):
             continue
-        if prev is not None and prev.type not in (tokenize.NEWLINE,) and t.type not in (tokenize.NEWLINE, tokenize.ENDMARKER) and not fdepth \
-                and prev.type not in (tokenize.FSTRING_START, tokenize.FSTRING_MIDDLE) and t.type not in (tokenize.FSTRING_MIDDLE, tokenize.FSTRING_END):
+        # gaps inside the replacement fields of f-strings count too (between expression tokens; never next to literal text)
+        if prev is not None and prev.type not in (tokenize.NEWLINE,) and t.type not in (tokenize.NEWLINE, tokenize.ENDMARKER) \
+                and prev.type not in (tokenize.FSTRING_START, tokenize.FSTRING_MIDDLE, tokenize.FSTRING_END) \
+                and t.type not in (tokenize.FSTRING_START, tokenize.FSTRING_MIDDLE, tokenize.FSTRING_END) \
+                and not (fdepth and (prev.string in ('!', ':') or t.string in ('!', ':'))):
             out.append((prev.end, t.start, depth, prev, t))
         if t.type == tokenize.FSTRING_END:
             fdepth -= 1
@@ -410,10 +426,10 @@ def offset_precondition(src, op):
         return 'rect'
     want = splice(src, ln, col, end_ln, end_col, op['text'])
     wt, t0 = parse_full(want), parse_full(src)
-    if wt is None or t0 is None or sdump(wt) != sdump(t0):
+    if wt is None or t0 is None or tdump(wt) != tdump(t0):
         return 'not trivia'
     best = innermost_strictly_containing(t0, src, (ln + 1, col), (end_ln + 1, end_col))
-    if best is None or [list(p) for p in best[0]] != op['path']:
+    if best is None or isinstance(resolve(t0, best[0]), ast.Constant) or [list(p) for p in best[0]] != op['path']:
         return 'node'
     return None
 
@@ -444,12 +460,12 @@ def gen_offset_op(rng, src):
         want = splice(src, *rect, text)
         wt = parse_full(want)
         t0 = parse_full(src)
-        if wt is None or t0 is None or sdump(wt) != sdump(t0):
+        if wt is None or t0 is None or tdump(wt) != tdump(t0):
             continue  # not pure trivia
         a = (rect[0] + 1, rect[1])
         b = (rect[2] + 1, rect[3])
         best = innermost_strictly_containing(t0, src, a, b)
-        if best is None:
+        if best is None or isinstance(resolve(t0, best[0]), ast.Constant):  # inside a leaf's own text (debug text of f'{a=}'): not trivia
             continue
         return {'k': 'offset', 'path': [list(p) for p in best[0]], 'rect': list(rect), 'text': text}
     return None
@@ -469,6 +485,9 @@ class C11(Plugin):
 
     program = C10.program
 
+    def extra_sig(self):
+        return {'predicates': sorted(getattr(self, 'last_P', ()))}
+
     def gen_op(self, rng):
         run = self.run
         root = run.root
@@ -478,6 +497,7 @@ class C11(Plugin):
 
     def pre_op(self, op):
         run = self.run
+        self.last_P = text_predicates(op['text']) if op['k'] == 'offset' else set()
         if op['k'] != 'offset':
             return None
         src = run.root.src
@@ -487,10 +507,10 @@ class C11(Plugin):
             return {'skip': True}
         want = splice(src, ln, col, end_ln, end_col, op['text'])
         wt, t0 = parse_full(want), parse_full(src)
-        if wt is None or t0 is None or sdump(wt) != sdump(t0):
+        if wt is None or t0 is None or tdump(wt) != tdump(t0):
             return {'skip': True}
         best = innermost_strictly_containing(t0, src, (ln + 1, col), (end_ln + 1, end_col))
-        if best is None or [list(p) for p in best[0]] != op['path']:
+        if best is None or isinstance(resolve(t0, best[0]), ast.Constant) or [list(p) for p in best[0]] != op['path']:
             return {'skip': True}
         return {'want': want, 'wt': wt, 'src': src}
 
